@@ -117,6 +117,59 @@ def run_case(acc, kind, subj, pname, X, y, w, classes, tag):
     acc.outcome((subj.name, a[1][list(a[1])[0]].tobytes()))
 
 
+def run_reveal(acc, kind, subj, pname, X, y_full, hide, w, classes):
+    """'revealing labels in a different order': first fit with the labels in `hide` still missing, then reveal them and fit again with the
+    SAME caller-owned arrays; the final model must equal the one fitted on the labeled subset with the original weights."""
+    multi = getattr(subj, "multi", False)
+    key = (subj.name, pname, "reveal", X.tobytes(), y_full.tobytes(), tuple(hide), None if w is None else w.tobytes(), repr(classes))
+    lbl = ~np.isnan(y_full) if not multi else np.any(~np.isnan(y_full), axis=1)
+    if not lbl.any():
+        acc.case(key, trivial=True)
+        return
+    acc.case(key)
+    w_orig = None if w is None else w.copy()
+    Xc, wc = X.copy(), (None if w is None else w.copy())  # caller-owned arrays, reused for both fits
+    y0 = y_full.copy()
+    y0[list(hide)] = NAN
+    wit = {"learner": subj.name, "X": X.tolist(), "y_final": y_full.tolist(), "hidden_in_first_fit": list(hide), "sample_weight": None if w is None else w.tolist(),
+           "classes": classes, "how": "fit(X, y_partial, w); reveal labels; fit(X, y_final, w) with the same arrays"}
+    rep = {"kind": kind, "name": subj.name, "pool": pname, "X": X, "y": y_full, "w": w, "classes": classes, "hide": list(hide)}
+    size = len(X) * 10 + len(hide)
+
+    def mk():
+        return subj.make(classes=classes, random_state=0) if kind == "clf" else subj.make(random_state=0)
+
+    Q = np.array(M.TRAIN_POOLS[pname], dtype=float)[: (3 if multi else 4)]
+    try:
+        with warnings.catch_warnings():
+            warnings.simplefilter("ignore")
+            e1 = mk()
+            e1.fit(Xc, y0) if wc is None else e1.fit(Xc, y0, sample_weight=wc)
+            e2 = mk()
+            yc = y_full.copy()
+            e2.fit(Xc, yc) if wc is None else e2.fit(Xc, yc, sample_weight=wc)
+            got = _predict(kind, subj, e2, Q)
+            ref = mk()
+            ref.fit(X[lbl], y_full[lbl]) if w_orig is None else ref.fit(X[lbl], y_full[lbl], sample_weight=w_orig[lbl])
+            want = _predict(kind, subj, ref, Q)
+        acc.transitions += 3
+    except Exception as e:
+        return
+    acc.traces_validated += 1
+    if wc is not None and not np.array_equal(wc, w_orig):
+        acc.violation(subj.name, "fit_modifies_sample_weight", "fit changed the caller's sample_weight from %s to %s" % (w_orig.tolist(), wc.tolist()), wit,
+                      {"weights": True}, rep, size)
+    if not np.array_equal(Xc, X):
+        acc.violation(subj.name, "fit_modifies_X", "fit changed the caller's X", wit, {}, rep, size)
+    exact = subj.name.startswith("Sklearn")
+    for k in got:
+        same = np.array_equal(got[k], want[k], equal_nan=True) if exact else np.allclose(got[k], want[k], rtol=1e-9, atol=1e-12, equal_nan=True)
+        if not same:
+            acc.violation(subj.name, "model_depends_on_reveal_order", "%s after revealing %s in a second step: %s; fitted on the labeled subset: %s" % (
+                k, list(hide), np.round(got[k], 6).tolist(), np.round(want[k], 6).tolist()), wit, {"weights": w is not None, "output": k}, rep, size)
+            break
+
+
 def gen_cases(kind, subj, pname, tier):
     multi = getattr(subj, "multi", False)
     P = np.array(M.TRAIN_POOLS[pname], dtype=float)
@@ -170,6 +223,28 @@ def run_shard(spec):
     acc = Acc()
     kind = spec["kind"]
     subj = (M.CLF_BY_NAME if kind == "clf" else M.REG_BY_NAME)[spec["name"]]
+    # two-step label reveal with caller-owned arrays reused (all labelings with >= 2 labels, every single hidden label and every pair)
+    multi = getattr(subj, "multi", False)
+    P = np.array(M.TRAIN_POOLS[spec["pool"]], dtype=float)[: (3 if multi else 4)]
+    n = len(P)
+    labs = list(itertools.product((None, 0, 1, 2), repeat=n * (2 if multi else 1)))
+    step = (16 if multi else (3 if subj.cost >= 3 else 1)) * (1 if spec["tier"] == "thorough" else 2)
+    for li, lab in enumerate(labs):
+        if li % step:
+            continue
+        y = _targets(lab, kind)
+        if multi:
+            y = y.reshape(n, 2)
+        rows = [i for i in range(n) if (np.any(~np.isnan(y[i])) if multi else not np.isnan(y[i]))]
+        if len(rows) < 2:
+            continue
+        hides = [(r,) for r in rows] + [tuple(c) for c in itertools.combinations(rows, 2)]
+        for hide in hides:
+            for w in (None, np.array([1.0, 2.0, 0.5, 3.0][:n])):
+                if w is not None and not getattr(subj, "supports_weights", True):
+                    continue
+                ww = w if (w is None or not multi) else np.column_stack([w, w])
+                run_reveal(acc, kind, subj, spec["pool"], P, y, hide, ww, [0, 1, 2] if kind == "clf" else None)
     for i, (X, y, w, classes, tag) in enumerate(gen_cases(kind, subj, spec["pool"], spec["tier"])):
         run_case(acc, kind, subj, spec["pool"], X, y, w, classes, tag)
         if i % 301 == 0:
@@ -185,5 +260,8 @@ def replay(spec):
     X = np.asarray(spec["X"], dtype=float)
     y = np.asarray(spec["y"], dtype=float)
     w = None if spec["w"] is None else np.asarray(spec["w"], dtype=float)
+    if spec.get("hide") is not None:
+        run_reveal(acc, kind, subj, spec["pool"], X, y, tuple(int(i) for i in spec["hide"]), w, spec["classes"])
+        return [(s, k) for (s, k, _p) in acc.groups]
     run_case(acc, kind, subj, spec["pool"], X, y, w, spec["classes"], "replay")
     return [(s, k) for (s, k, _p) in acc.groups]
